@@ -164,6 +164,31 @@ def clauses(c):
     return cl
 
 
+def boundary_offsets(c):
+    """lhs - rhs of every comparison of the decision, for the histogram of how
+    often the generator sits exactly on / next to a boundary (measured)."""
+    out, inn = c["out"], c["in"]
+    ofee = c["base"] + out * c["rate"] // 1000000
+    r = max(-10000000, min(10000000, c["irate"]))
+    tot = ofee + c["ibase"] + quot(r * (out + ofee), 1000000)
+    bw = c["auxbw"] if c["aux"] == 2 else c["chanbw"]
+    d = {"out_vs_min": out - c["min"], "out_vs_bw": out - bw,
+         "outexp_vs_height+rej": c["outexp"] - (c["height"] + c["rej"]),
+         "outexp_vs_height+maxcltv": c["outexp"] - (c["height"] + c["maxcltv"])}
+    if c["max"]:
+        d["out_vs_max"] = out - c["max"]
+    if c["kind"] == "fwd":
+        d["in_vs_out"] = inn - out
+        d["paid_vs_fee"] = (inn - out) - tot
+        d["expdelta_vs_delta"] = (c["inexp"] - c["outexp"]) - c["delta"]
+        d["expdelta_vs_maxcltv"] = (c["inexp"] - c["outexp"]) - c["maxcltv"]
+        d["height+rej_vs_2^32"] = c["height"] + c["rej"] - T32
+        d["height+maxcltv_vs_2^32"] = c["height"] + c["maxcltv"] - T32
+        d["out*rate_vs_2^64"] = out * c["rate"] - T64
+        d["irate*amt_vs_2^63"] = abs(r * (out + ofee)) - T63
+    return d
+
+
 # failure -> clauses of which at least one must be false
 NAMES = {
     (1, 0): ("no_loss", "fee_covered"),
@@ -422,8 +447,17 @@ def run(ctx):
             k = f(c)
             h[k] = h.get(k, 0) + 1
         return dict(sorted(h.items(), key=lambda kv: str(kv[0])))
+    bh = {}
+    for c in rows:
+        for k, v in boundary_offsets(c).items():
+            h = bh.setdefault(k, {"-1": 0, "0": 0, "+1": 0, "overflow_side": 0})
+            if -1 <= v <= 1:
+                h[{-1: "-1", 0: "0", 1: "+1"}[v]] += 1
+            if k.endswith(("2^32", "2^64", "2^63")) and v >= 0:
+                h["overflow_side"] += 1
     ctx.cov.update({
         "evaluations": len(rows),
+        "boundary_hits": bh,
         "distinct_nontrivial": distinct_count(rows, inputs_of),
         "rule": "every case is one call of the real CheckHtlcForward/CheckHtlcTransit; "
                 "distinct by the full input tuple (policy, link cfg, env answers, htlc)",
